@@ -119,7 +119,6 @@ func (r *Recorder) Trailers() http.Header {
 	return t
 }
 
-
 // Script describes how a byte stream is handed out to Read calls.
 type Script struct {
 	Data []byte
